@@ -81,8 +81,10 @@ class Run:
         self.Logged = type('Logged', (), dict(ns))
 
         def ctrl_on_add(self, entity, world):
-            run.on_call(self, 'on_add', (entity, world), {})
+            # a subclass overriding on_add makes the super call first (Controller's docstring), then
+            # does its own work (which the scenario may script to raise)
             desper.Controller.on_add(self, entity, world)
+            run.on_call(self, 'on_add', (entity, world), {})
         ctrl_ns = dict(ns)
         ctrl_ns['on_add'] = ctrl_on_add
         self.CtrlRoot = type('CtrlRoot', (desper.Controller,), ctrl_ns)
